@@ -216,6 +216,7 @@ class ConnSim(Sim):
         self.known_ticket = 777
         self.pierce_future = None
         self.hung_drain = False
+        self.held_q = False
         self.ticks = 0
         if kind == 'in':
             self.loop.run_coro(self.network.connect_listening_ports())
@@ -444,12 +445,18 @@ class ConnSim(Sim):
         if k == 'qsend':
             c = self.cur()
             mode = a[1]
-            if c is None or mode not in ('ok', 'fail'):
+            if c is None or mode not in ('ok', 'fail', 'held'):
                 return []
             ep = self.ep
+            if mode == 'held' and (ep is None or ep.client_closed or self.held_q or not self._quiet_for_timeout()):
+                return []
             if ep is not None:
                 ep.drain_error = ConnectionResetError('reset') if mode == 'fail' else None
-                ep.drain_hang = False
+                # held: the bytes are written, the drain of the queued task stays pending (slow peer) until the connection
+                # is closed -- which has to happen before the 10 s write timeout (the scenario's job)
+                ep.drain_hang = (mode == 'held')
+                if mode == 'held':
+                    self.held_q = True
 
             async def q():
                 return c.queue_message(b'\x04\x00\x00\x00\x01\x00\x00\x00')
@@ -457,7 +464,8 @@ class ConnSim(Sim):
             self.settle(4)
             if ep is not None:
                 ep.drain_error = None
-            return ['QSend ' + {'ok': 'SOk', 'fail': 'SFail'}[mode]]
+                ep.drain_hang = False
+            return ['QSend ' + {'ok': 'SOk', 'fail': 'SFail', 'held': 'SOk'}[mode]]
         if k == 'send':
             c = self.cur()
             mode = a[1]
@@ -571,7 +579,8 @@ def run_scenario(sc):
         # DISCONNECT_TIMEOUT; a connection still CLOSING then never reaches CLOSED
         sim.advance(6.0)
         c = sim.cur()
-        r['after_grace'] = {'state': c.state.name if c is not None else '-', 'in_registry': sim.in_registry(c) if c is not None else False}
+        r['after_grace'] = {'state': c.state.name if c is not None else '-', 'in_registry': sim.in_registry(c) if c is not None else False,
+                            'reported': list(sim.rec(c).reported) if c is not None else []}
         return r
     finally:
         sim.close()
